@@ -149,9 +149,9 @@ fn fixture_case(k: u32) -> Case {
     Case { cfg: Default::default(), salt: 1900 + k, nclients: 4, ops }
 }
 
-pub fn mkfixtures(out: &Path, commit: &str) -> anyhow::Result<()> {
+pub fn mkfixtures(out: &Path, commit: &str, only_variant: Option<&str>, start_index: usize) -> anyhow::Result<()> {
     std::fs::create_dir_all(out)?;
-    let mut n = 0;
+    let mut n = start_index;
     for k in 0..8u32 {
         let case = fixture_case(k);
         let specs = specs_of(&case);
@@ -176,6 +176,11 @@ pub fn mkfixtures(out: &Path, commit: &str) -> anyhow::Result<()> {
         let bases: BTreeMap<Uuid, Uuid> = clients.iter().map(|c| (*c, h.model.client(*c).base())).collect();
         drop(h);
         let mut write = |variant: &str, note: &str, img: Option<&Image>| -> anyhow::Result<()> {
+            if let Some(v) = only_variant {
+                if v != variant {
+                    return Ok(());
+                }
+            }
             let fdir = out.join(format!("{n:02}-{variant}"));
             let _ = std::fs::remove_dir_all(&fdir);
             let data = fdir.join("data");
@@ -221,6 +226,16 @@ pub fn mkfixtures(out: &Path, commit: &str) -> anyhow::Result<()> {
         if wal_writes.len() >= 3 {
             let p = wal_writes[wal_writes.len() / 2];
             write("crash-mid-transaction", "process killed while a transaction was writing its frames to the write-ahead log", Some(&img_at(p)))?;
+        }
+        // killed between the creation of a new client and its first version: the client record
+        // exists, empty (the first AddVersion of client 2 is the op in question)
+        if let Some(pos) = case.ops.iter().position(|o| matches!(o, Op::AddVersion { c: 2, .. })) {
+            let (s2, e2) = ranges[pos];
+            let deletes: Vec<usize> = (s2..e2).filter(|i| ops[*i].file.ends_with("-wal") && ops[*i].k == OpK::Delete).collect();
+            // transactions of that request: look-up (no such client), creation, add: cut after the second one closed
+            if deletes.len() >= 3 {
+                write("crash-after-client-creation", "process killed after a new client's record was committed and before its first version was added: the directory holds a client without versions next to clients with history", Some(&img_at(deletes[1] + 1)))?;
+            }
         }
         if k % 3 == 0 {
             // in the middle of the checkpoint that follows (database file being written)
@@ -324,7 +339,17 @@ fn check(xc: &XCase, st: &mut Stats) -> CheckResult {
     for a in &exp.absent {
         match h.drv.get_child(*a, Uuid::nil()) {
             Outcome::NoSuchClient | Outcome::NotFound => {}
-            o => return v(format!("{what}: client {a} was not in the directory, yet the server answers {}", o.short())),
+            o => return v(format!("{what}: client {a} had no versions in the directory, yet the server answers {}", o.short())),
+        }
+        // "absent" covers a client record without versions (left by a crash between the creation
+        // of a client and its first version): it must still be exactly that
+        let meta = h.meta(*a)?;
+        if meta.exists {
+            if !meta.latest.is_nil() || meta.snap.is_some() {
+                return v(format!("{what}: client {a} had a record without versions or snapshot in the directory; now it shows latest {} and snapshot {:?}", meta.latest, meta.snap));
+            }
+            h.model.client_mut(*a).exists = true;
+            st.label("c19:empty-client-record");
         }
     }
     // 2. new versions can be appended to the existing chains
